@@ -37,7 +37,7 @@ from ..engine.normalize import positional
 from ..engine.report import AnalysisError, Run
 from ..engine.resolver import Program, contains_await
 from ..engine.util import find_calls, method_call, nodes_with_call, u
-from ._c06_util import (Flow, Org, Tri, cmp_eval, first_run_sync_name, indent_of, inline_all, lifted, names_eq, pruned, result_sites, seg, spliced, src_patch, stmt_patch,
+from ._c06_util import (Flow, Org, Tri, cmp_eval, first_run_sync_name, indent_of, inline_all, validity_name, lifted, names_eq, pruned, result_sites, seg, spliced, src_patch, stmt_patch,
                         transitive_helpers, tri, truth_atom, unawait)
 from .c13 import check_fetcher, check_steps, engine_drops_round, step_classes
 from .c19 import check_plain_primary
@@ -380,7 +380,7 @@ def check_all(run: Run, prog: Program, rnd: Round) -> None:
 def fetch_unit(prog: Program) -> Any:
     """MetricFetcher.fetch_next() as one unit of behaviour: every private callee read in (`_fetch_next`,
     however it is called, split or inlined), except the shared validity predicate."""
-    return inline_all(prog, prog.func(f"{MF}.fetch_next"), stop={"_is_value_valid"})
+    return inline_all(prog, prog.func(f"{MF}.fetch_next"), stop={validity_name(prog) or "_is_value_valid"})
 
 
 def check_one(run: Run, prog: Program) -> None:
